@@ -26,7 +26,7 @@ SET_ERR = ("event", -1, [1])
 
 
 def stage_calls(stages):
-    calls = {s: ("input", "r_" + s, (64, False) if s == "cred_create" else (32, True), True) for s in stages}
+    calls = {s: (("ptrinput", "c", True) if s == "cred_create" else ("input", "r_" + s, (32, True), True)) for s in stages}
     calls.update({"m_msg_reset": ("event", 0, []), "m_msg_send": ("input", "r_m_msg_send", (32, False), True),
                   "replay_remove": ("event", 0, []), "cred_destroy": ("event", 0, [])})
     return calls
@@ -34,7 +34,8 @@ def stage_calls(stages):
 
 def dec_specs():
     return [
-        dict(name="dec_process_msg", inputs=[("m.error_num", "error_num")], calls=stage_calls(DEC_STAGES)),
+        dict(name="dec_process_msg", inputs=[("m.error_num", "error_num"), ("c", "r_cred_create"), ("c.replay_inserted", "replay_inserted")],
+             calls=stage_calls(DEC_STAGES)),
         dict(name="dec_validate_msg", inputs=[MM("data_len"), MM("data", "data_ptr")],
              calls={"m_msg_set_err": SET_ERR, "strdup": ("ignore", 1)}),
         dict(name="dec_check_retry", inputs=[M("retry"), M("client_uid"), M("client_gid")],
@@ -54,7 +55,7 @@ def dec_specs():
 
 def enc_specs():
     return [
-        dict(name="enc_process_msg", inputs=[("m.error_num", "error_num")], calls=stage_calls(ENC_STAGES)),
+        dict(name="enc_process_msg", inputs=[("m.error_num", "error_num"), ("c", "r_cred_create")], calls=stage_calls(ENC_STAGES)),
         dict(name="enc_validate_msg",
              inputs=[MM("cipher"), MM("mac"), MM("zip"), MM("data_len"), MM("ttl"), ("conf.def_cipher", "def_cipher"),
                      ("conf.def_mac", "def_mac"), ("conf.def_zip", "def_zip"), ("conf.def_ttl", "def_ttl"),
